@@ -23,12 +23,23 @@ RULE = ("every TLVStruct subclass found by reflection (schemas regenerated each 
         "add_char(value=) / set_value / value setter / process_changes / Accessories.from_list / serialize+from_list and read back through every accessor (Characteristic.value, get_value, "
         "Service.value, Service[...], Characteristics.first, Services.first/filter by value, iteration), read purity, and the write path Service.build_update; "
         "stream 'ip' = the same histories end to end through the unpatched IpPairing on the simulated network (GET /accessories, EVENT, get_characteristics, build_update+put_characteristics of library-encoded messages). "
-        "non-trivial = distinct (class, set-field mask, size classes) / (characteristic, store path, item count, 00 tail, 00 00 inside, size class)")
+        "the value generators of every scalar type also draw domain-structured values (128-bit: every characteristic / service type of the library's own tables in full and short form, any id on the "
+        "HAP base UUID, vendor UUIDs, UUIDs sharing only part of the base or in the other byte order; integers: 00 / FF runs, powers of 256, the field's width, fragment sizes, the item types of the enclosing "
+        "message; bytes / text: item headers, separators, zero-length items, fills of 253 / 254 / 255 / 510 bytes followed by headers, multi-byte characters astride the fragment boundary), and unset fields are "
+        "passed to every constructor as explicit None; stream 'wire' = byte strings hand-built from plain value trees (no library object on the reference side) for every class x every subset of items present "
+        "(all subsets up to 5 fields; none / each alone / all but one / all / random otherwise) x writing style (declaration order, items permuted at every level, 128-bit types in short form), every scalar item alone "
+        "over the structured values of its type (128-bit fields: the whole type table), decoded and compared field by field (absent item -> None, present item -> its value), plus the library's own object for the "
+        "same tree (other fields None) encoded (canonical) and decoded (equal); items of length zero: correspondence only; stream 'db' = reference-encoded CoAP accessory databases (1..3 accessories x 1..3 services x "
+        "1..3 characteristics, types in full / short / vendor form) and BLE characteristic signatures through decode(), to_dict() and Accessories.from_list(to_dict()). "
+        "non-trivial = distinct (class, set-field mask, size classes) / (characteristic, store path, item count, 00 tail, 00 00 inside, size class) / (class, writing style, items-present mask)")
 TRUSTED = ["Python dataclasses/typing reflection (schema extraction)", "struct.pack native == little-endian on this platform",
-           "harness/simnet.py virtual-time loop and in-memory transport, harness/acc.py scaffold accessory (stream 'ip')", "base64 of the standard library"]
+           "harness/simnet.py virtual-time loop and in-memory transport, harness/acc.py scaffold accessory (stream 'ip')", "base64 of the standard library",
+           "HAP-BLE characteristic-properties bit table, GATT presentation-format widths and the HAP base UUID as written in the harness (streams 'wire' / 'db')"]
 ASSUMPTIONS = ["float fields (min_rtcp_interval) have no (de)serialiser in the library and are never set; they are left out of the schemas",
                "values with an empty encoding (empty bytes/str, empty sequence, struct with no field set) are outside the round-trip theorem: the encoder emits nothing for them (WFV hypothesis)",
-               "streams 'model'/'ip': a characteristic value is held as the base64 text of the message, as the IP transport and the entity map deliver it (the BLE/CoAP value converters hand tlv8 values on as hex text, which the model accessor does not read: noted in the evidence, not asserted)"]
+               "streams 'model'/'ip': a characteristic value is held as the base64 text of the message, as the IP transport and the entity map deliver it (the BLE/CoAP value converters hand tlv8 values on as hex text, which the model accessor does not read: noted in the evidence, not asserted)",
+               "streams 'wire' (short-form style) / 'db': a 128-bit type written in fewer than 16 bytes (as accessories on Thread write Apple-defined types) names the same integer; in the to_dict() / accessory-model views a short id and the Apple-defined UUID with that id are the same type",
+               "an item of length zero sent by a peer (empty value) is compared between model and implementation only; the property does not say whether it is an empty value or an absent one"]
 EXPLANATION = "schema-generic Lean model of tlv8.py; theorems over all schemas satisfying WFS; Gen.Schemas (reflection) transfers them to every class; differential tie per class"
 
 SIZES = {T.u8: 1, T.u16: 2, T.u32: 4, T.u64: 8, T.u128: 16}
@@ -47,6 +58,14 @@ def cls_of(name):
 def fields_of(cls):
     hints = typing.get_type_hints(cls)
     return [(f, hints.get(f.name, f.type)) for f in dataclasses.fields(cls) if f.init and hints.get(f.name, f.type) is not float]
+
+
+def mk(cls, kw):
+    """instance with every field the caller did not set explicitly absent (None): 'unset' means no item on the wire, whatever
+    defaults the class declares"""
+    full = {f.name: None for f in dataclasses.fields(cls) if f.init}
+    full.update(kw)
+    return cls(**full)
 
 
 # ---------- rendering python values in the driver's syntax
@@ -121,7 +140,147 @@ def rbytes(rng, allow_small=True):
     return bytes(rng.randrange(256) for _ in range(n))
 
 
-def rval(rng, tp, depth, with_ids):
+# ---------- domain-structured values: what the fields of these messages hold in the field, and byte patterns that coincide with
+# the framing (item headers, separators, fragment boundaries, other widths / byte orders)
+HAP_BASE = 0x0000_1000_8000_0026_BB76_5291  # HAP spec: Apple-defined types are XXXXXXXX-0000-1000-8000-0026BB765291
+BT_BASE = 0x0000_1000_8000_0080_5F9B_34FB  # Bluetooth SIG base (shares -0000-1000-8000- with the HAP base)
+LOW96 = (1 << 96) - 1
+GEN_KINDS = Counter()
+_UUIDS = None
+
+
+def uuid_pool():
+    """every characteristic / service type the library's own tables name (by reflection over its tables), as 128-bit integers:
+    (Apple-defined ones, all others)"""
+    global _UUIDS
+    if _UUIDS is None:
+        import uuid
+        found = set()
+        for modname, attr in (("aiohomekit.model.characteristics", "CharacteristicsTypes"), ("aiohomekit.model.services", "ServicesTypes"),
+                              ("aiohomekit.model.characteristics.data", "characteristics"), ("aiohomekit.model.services.data", "services")):
+            try:
+                o = getattr(importlib.import_module(modname), attr, None)
+            except Exception:  # noqa: BLE001
+                o = None
+            if o is None:
+                continue
+            cands = list(o) if isinstance(o, dict) else [v for k, v in vars(o).items() if not k.startswith("_")]
+            for c in cands:
+                if isinstance(c, str):
+                    try:
+                        found.add(uuid.UUID(c).int)
+                    except ValueError:
+                        pass
+        apple = sorted(u for u in found if u & LOW96 == HAP_BASE)
+        other = sorted(u for u in found if u & LOW96 != HAP_BASE)
+        _UUIDS = (apple or [(0x25 << 96) | HAP_BASE], other or [0xE863F10A_079E_48FF_8F27_9C2605A29F52])
+    return _UUIDS
+
+
+def u128_structured(rng):
+    apple, other = uuid_pool()
+    kind = rng.choice(["apple-full", "apple-full", "apple-full", "apple-short", "apple-any-id", "vendor-table", "vendor-random", "partial-base", "partial-base"])
+    u = rng.choice(apple)
+    if kind == "apple-full":
+        v = u
+    elif kind == "apple-short":
+        v = u >> 96
+    elif kind == "apple-any-id":
+        v = (rng.choice([0, 1, rng.randrange(256), rng.randrange(65536), rng.randrange(1 << 32), (1 << 32) - 1]) << 96) | HAP_BASE
+    elif kind == "vendor-table":
+        v = rng.choice(other)
+    elif kind == "vendor-random":
+        v = (rng.getrandbits(128) & ~(0xF << 76) & ~(0x3 << 62)) | (4 << 76) | (2 << 62)  # RFC 4122 version 4
+    else:
+        short = u >> 96
+        v = rng.choice([
+            u ^ (1 << rng.randrange(96)),  # one bit of the base off
+            u ^ (0xFF << (8 * rng.randrange(12))),  # one byte of the base off
+            (short << 96) | (HAP_BASE & ((1 << 64) - 1)),  # only the low half of the base
+            (short << 96) | (HAP_BASE >> 48 << 48),  # only the high half of the base
+            (short << 96) | BT_BASE,  # the Bluetooth SIG base
+            (short << 96) | (HAP_BASE >> 8),  # base shifted by a byte
+            HAP_BASE,  # base alone
+            (HAP_BASE << 32) | short,  # id at the other end
+            int.from_bytes(u.to_bytes(16, "big"), "little"),  # the same UUID in the other byte order
+            (short << 64) | (HAP_BASE & ((1 << 64) - 1)),  # a 96-bit value
+            u + 1, u - 1,
+            u | (1 << 127),
+        ]) & ((1 << 128) - 1)
+    GEN_KINDS["u128:" + kind] += 1
+    return v
+
+
+def int_structured(rng, k, types):
+    """values of a k-byte field whose bytes coincide with other things on the wire: runs of 00 / FF, powers of 256, the field's own
+    width, fragment sizes, the item types of the enclosing message"""
+    j = rng.randrange(k)
+    t = rng.choice(list(types) or [1])
+    v = rng.choice([
+        0, 256 ** k - 1, 256 ** j, 256 ** (j + 1) - 1, 0x80 << (8 * (k - 1)), (0x80 << (8 * (k - 1))) - 1,
+        k, 2 * k, 255, 254, 256, 510, 511, 0xFF00, 0x00FF, 0x0100, 0x0001 << (8 * j), 0xFF << (8 * j),
+        t, t << (8 * j), (t << 8) | k, (k << 8) | t, t | (0xFF << 8), int.from_bytes(bytes([t, k] * 8)[:k], "little"),
+        int.from_bytes(bytes([rng.randrange(1, 256)]) * k, "little"),  # one byte repeated
+        rng.randrange(256 ** k) & ~(0xFF << (8 * j)),  # a 00 byte inside
+        rng.randrange(256 ** k) | (0xFF << (8 * j)),  # an FF byte inside
+    ]) % (256 ** k)
+    GEN_KINDS[f"u{8 * k}:structured"] += 1
+    return v
+
+
+def bytes_structured(rng, types, text=False):
+    """values that look like framing: items of the enclosing message's types, separators, zero-length items, fragments of 255
+    bytes followed by what looks like a continuation (as text: the same patterns within ASCII)"""
+    lim = 128 if text else 256
+    ts = [x for x in types if x < lim] or [1]
+    t = rng.choice(ts + [0, lim - 1])
+    n = rng.choice([0, 1, 2, 3, 16])
+
+    def fill(m):
+        return bytes(rng.randrange(1 if text else 0, lim) for _ in range(m))
+    kind = rng.choice(["item", "items", "separator", "separator-inside", "zero-length-item", "overlong-header", "fill-255-then-header", "fill-253-then-separator",
+                       "fill-254-then-type", "ff-run", "00-run", "fragment-sized", "two-fragments-then-header"])
+    if kind == "item":
+        v = bytes([t, n]) + fill(n)
+    elif kind == "items":
+        v = b"".join(bytes([rng.choice(ts), m]) + fill(m) for m in [rng.randrange(4) for _ in range(rng.randint(2, 4))])
+    elif kind == "separator":
+        v = b"\x00\x00" * rng.choice([1, 1, 2])
+    elif kind == "separator-inside":
+        v = bytes([t, 1]) + fill(1) + b"\x00\x00" + bytes([t, 1]) + fill(1)
+    elif kind == "zero-length-item":
+        v = bytes([t, 0])
+    elif kind == "overlong-header":
+        v = bytes([t, lim - 1]) + fill(rng.choice([0, 1, 5]))
+    elif kind == "fill-255-then-header":
+        v = fill(255) + bytes([t, n]) + fill(n)
+    elif kind == "fill-253-then-separator":
+        v = fill(253) + b"\x00\x00" + rng.choice([b"", bytes([t, 1]) + fill(1)])
+    elif kind == "fill-254-then-type":
+        v = fill(254) + bytes([t]) + rng.choice([b"", bytes([n]) + fill(n)])
+    elif kind == "ff-run":
+        v = bytes([lim - 1]) * rng.choice([1, 2, 255, 256, 257])
+    elif kind == "00-run":
+        v = b"\x00" * rng.choice([1, 3, 255, 256, 257, 510])
+    elif kind == "fragment-sized":
+        v = bytes([t, lim - 1]) + fill(253)  # exactly one fragment, opening like a full fragment's header
+    else:
+        v = fill(510) + bytes([t, n]) + fill(n)
+    GEN_KINDS[("str:" if text else "bytes:") + kind] += 1
+    return v
+
+
+def str_structured(rng, types):
+    if rng.random() < 0.35:
+        # multi-byte characters astride the 255-byte fragment boundary
+        v = rng.choice(["a" * 254 + "\u00e9", "a" * 253 + "\u20ac", "a" * 254 + "\u20ac" + "b" * 3, "\u00e9" * 128, "\u20ac" * 85, "\u20ac" * 86, "a" * 509 + "\u00e9z",
+                        "a" * 252 + "\U0001f3e0", "\x7f" * 255])
+        GEN_KINDS["str:multibyte-at-fragment-boundary"] += 1
+        return v
+    return bytes_structured(rng, types, text=True).decode("ascii")
+
+
+def rval(rng, tp, depth, with_ids, types=()):
     if typing.get_origin(tp) is abc.Sequence:
         inner = tp.__args__[0]
         if inner is T.u16:
@@ -137,18 +296,25 @@ def rval(rng, tp, depth, with_ids):
             # list items whose fields are all unset encode to nothing: in leading or middle position they are still
             # delimited by the 00 00 separators (a trailing one is indistinguishable from "no more items" and is not generated)
             try:
-                empty = inner()
+                empty = mk(inner, {})
                 pos = rng.randrange(0, len(out))
                 out[pos:pos] = [empty] * rng.choice([1, 1, 2])
             except TypeError:
                 pass
         return out or None
+    structured = rng.random() < 0.4
     if tp in SIZES:
         k = SIZES[tp]
+        if structured:
+            return tp(u128_structured(rng) if k == 16 else int_structured(rng, k, types))
         return tp(rng.choice([0, 1, 255, 256 ** k - 1, rng.randrange(256 ** k)]))
     if tp is T.bu16:
+        if structured:
+            return T.bu16(int_structured(rng, 2, types))
         return T.bu16(rng.choice([0, 1, 255, 256, 65535, rng.randrange(65536)]))
     if tp is str:
+        if structured:
+            return str_structured(rng, types)
         base = "".join(rng.choice("abcXYZ09 -é€") for _ in range(rng.choice([1, 3, 40, 255, 256])))
         r = rng.random()
         if r < 0.3:
@@ -158,6 +324,8 @@ def rval(rng, tp, depth, with_ids):
             base = {"end": base + edge, "start": edge + base, "mid": base[:len(base) // 2] + edge + base[len(base) // 2:], "only": edge}[pos]
         return base
     if tp is bytes:
+        if structured:
+            return bytes_structured(rng, types)
         return rbytes(rng)
     if isinstance(tp, type) and issubclass(tp, enum.IntEnum):
         return rng.choice(list(tp))
@@ -166,26 +334,31 @@ def rval(rng, tp, depth, with_ids):
     raise TypeError(tp)
 
 
+def tlv_types_of(cls):
+    return [int(f.metadata["tlv_type"]) for f, _ in fields_of(cls)]
+
+
 def rinst(rng, cls, depth=0, with_ids=False):
     """random instance with a non-empty encoding (None if the draw left every field unset)"""
     kw = {}
     fl = fields_of(cls)
+    types = [int(f.metadata["tlv_type"]) for f, _ in fl]
     for f, tp in fl:
         if rng.random() < (0.25 if depth < 2 else 0.5):
             continue
-        v = rval(rng, tp, depth, with_ids)
+        v = rval(rng, tp, depth, with_ids, types)
         if v is not None:
             kw[f.name] = v
     if not kw:
         # force one scalar field so that the encoding is non-empty
         for f, tp in fl:
-            v = rval(rng, tp, depth, with_ids)
+            v = rval(rng, tp, depth, with_ids, types)
             if v is not None and not (isinstance(v, list) and not v):
                 kw[f.name] = v
                 break
     if not kw:
         return None
-    return cls(**kw)
+    return mk(cls, kw)
 
 
 def dup_types(schema_fields):
@@ -220,7 +393,7 @@ def strip(inst, drop_ids, dup_names):
         if f.name in dup_names:
             continue
         kw[f.name] = v
-    return type(inst)(**kw)
+    return mk(type(inst), kw)
 
 
 def earlier_dup_names(cls):
@@ -388,7 +561,7 @@ def model_value(rng, st, array):
     if items and rng.random() < 0.1:
         # an item with no field set encodes to nothing; in leading or middle position the separators still delimit it
         try:
-            items.insert(rng.randrange(len(items)), st())
+            items.insert(rng.randrange(len(items)), mk(st, {}))
         except TypeError:
             pass
     return items
@@ -494,7 +667,7 @@ def ref_read(st, data):
         else:
             raise RefReadError("field type")
         kw[f.name] = v
-    return st(**kw)
+    return mk(st, kw)
 
 
 def ref_read_value(st, array, payload, want):
@@ -855,7 +1028,7 @@ def model_histories(ctx, chars):
         if len(combos) > 700:
             combos = rng.sample(combos, 700)
         for combo in combos:
-            v = [st(**kw) for kw in combo] if array else st(**combo[0])
+            v = [mk(st, kw) for kw in combo] if array else mk(st, combo[0])
             for how in (MODEL_STORES if len(combos) * len(MODEL_STORES) <= 1500 else [MODEL_STORES[k % len(MODEL_STORES)]]):
                 out.append(("exhaustive", [[uuid, how, hx(model_payload(v, array)), model_show(v, st, array)]], [(name, array, v)]))
             k += 1
@@ -976,6 +1149,637 @@ def model_streams(ctx):
         loop.close()
 
 
+# ---------- stream 'wire': hand-built byte strings.  The reference side never goes through the library's classes: a message is a
+# plain tree {field name: value} (ints, bytes, str, nested trees, lists of trees, lists of ids) holding exactly the items that are
+# on the wire, written by t_bytes from the reflected schema; what decode() returns is compared with the tree field by field
+def is_seq(tp):
+    return typing.get_origin(tp) is abc.Sequence
+
+
+def is_struct(tp):
+    return isinstance(tp, type) and issubclass(tp, T.TLVStruct)
+
+
+def is_enum(tp):
+    return isinstance(tp, type) and issubclass(tp, enum.IntEnum)
+
+
+def t_value(rng, tp, depth, with_ids, types):
+    if is_seq(tp):
+        inner = tp.__args__[0]
+        if inner is T.u16:
+            if not with_ids:
+                return None
+            return [rng.choice([rng.randrange(65536), rng.randrange(256), 0x1000, 0x2000, 257 * rng.randrange(256)]) for _ in range(rng.randint(1, 6))]
+        out = [x for x in (t_tree(rng, inner, depth + 1, with_ids) for _ in range(rng.randint(1, 3))) if x]
+        if out and rng.random() < 0.2:
+            pos = rng.randrange(0, len(out))
+            out[pos:pos] = [{} for _ in range(rng.choice([1, 1, 2]))]  # items with nothing set, in leading / middle position
+        return out or None
+    if is_struct(tp):
+        return t_tree(rng, tp, depth + 1, with_ids) or None
+    v = rval(rng, tp, depth, with_ids, types)
+    if isinstance(v, int):
+        return int(v)
+    return v
+
+
+def t_tree(rng, cls, depth=0, with_ids=False, subset=None):
+    """random tree; with `subset` (top level) exactly those fields are present"""
+    fl = fields_of(cls)
+    types = [int(f.metadata["tlv_type"]) for f, _ in fl]
+    tree = {}
+    for f, tp in fl:
+        if subset is not None:
+            if f.name not in subset:
+                continue
+            v = None
+            for _ in range(8):
+                v = t_value(rng, tp, depth, True if (is_seq(tp) and tp.__args__[0] is T.u16) else with_ids, types)
+                if v is not None:
+                    break
+        else:
+            if rng.random() < (0.25 if depth < 2 else 0.5):
+                continue
+            v = t_value(rng, tp, depth, with_ids, types)
+        if v is not None:
+            tree[f.name] = v
+    if subset is None and not tree:
+        for f, tp in fl:
+            v = t_value(rng, tp, depth, with_ids, types)
+            if v is not None:
+                tree[f.name] = v
+                break
+    return tree
+
+
+def t_val_bytes(v, tp, order, narrow):
+    if is_seq(tp):
+        inner = tp.__args__[0]
+        if inner is T.u16:
+            return b"".join(int(x).to_bytes(2, "little") for x in v)
+        return b"\x00\x00".join(t_bytes(inner, x, order, narrow) for x in v)
+    if is_struct(tp):
+        return t_bytes(tp, v, order, narrow)
+    if tp in SIZES:
+        k = SIZES[tp]
+        if narrow and k == 16:
+            # the short form of a type, as accessories on Thread write it: the fewest of 1, 2, 4, 8 bytes that hold the value
+            k = next((w for w in (1, 2, 4, 8) if v < 256 ** w), 16)
+        return int(v).to_bytes(k, "little")
+    if tp is T.bu16:
+        return int(v).to_bytes(2, "big")
+    if is_enum(tp):
+        return bytes([int(v)])
+    if tp is str:
+        return v.encode("utf-8")
+    return bytes(v)
+
+
+def t_bytes(cls, tree, order=None, narrow=False):
+    """the wire form of a tree: declaration order (canonical) or, with `order` (a Random), the items of every message in an
+    order of the writer's choosing (the fragments of one value stay together)"""
+    fl = [(f, tp) for f, tp in fields_of(cls) if f.name in tree]
+    if order is not None:
+        order.shuffle(fl)
+    return b"".join(ref_frag(int(f.metadata["tlv_type"]), t_val_bytes(tree[f.name], tp, order, narrow)) for f, tp in fl)
+
+
+def t_show_val(v, tp):
+    if v is None:
+        return "_"
+    if is_seq(tp):
+        inner = tp.__args__[0]
+        if inner is T.u16:
+            return "( " + " ".join(str(int(x)) for x in v) + " )"
+        return "[ " + " ".join(t_show(inner, x) for x in v) + " ]"
+    if is_struct(tp):
+        return t_show(tp, v)
+    if isinstance(v, int):
+        return f"i{int(v)}"
+    if isinstance(v, str):
+        return "x" + hx(v.encode("utf-8"))
+    return "x" + hx(v)
+
+
+def t_show(cls, tree):
+    return "{ " + " ".join(t_show_val(tree.get(f.name), tp) for f, tp in fields_of(cls)) + " }"
+
+
+def t_obj(cls, tree):
+    """the library object holding the tree's values; everything else explicitly absent"""
+    kw = {}
+    for f, tp in fields_of(cls):
+        if f.name not in tree:
+            continue
+        v = tree[f.name]
+        if is_seq(tp):
+            inner = tp.__args__[0]
+            kw[f.name] = [T.u16(x) for x in v] if inner is T.u16 else [t_obj(inner, x) for x in v]
+        elif is_struct(tp):
+            kw[f.name] = t_obj(tp, v)
+        elif tp in SIZES or tp is T.bu16 or is_enum(tp):
+            kw[f.name] = tp(v)
+        else:
+            kw[f.name] = v
+    return mk(cls, kw)
+
+
+def t_has_ids(cls, tree):
+    for f, tp in fields_of(cls):
+        if f.name not in tree:
+            continue
+        if is_seq(tp):
+            inner = tp.__args__[0]
+            if inner is T.u16 or any(t_has_ids(inner, x) for x in tree[f.name]):
+                return True
+        elif is_struct(tp) and t_has_ids(tp, tree[f.name]):
+            return True
+    return False
+
+
+def t_strip(cls, tree, drop_ids, dups):
+    """the tree without what the two recorded findings are about: id lists reduced to one id without a zero byte, the earlier
+    field of a duplicated item type left out"""
+    drop = earlier_dup_names(cls) if dups else set()
+    out = {}
+    for f, tp in fields_of(cls):
+        if f.name not in tree or f.name in drop:
+            continue
+        v = tree[f.name]
+        if is_seq(tp):
+            inner = tp.__args__[0]
+            v = ([1] if drop_ids else v) if inner is T.u16 else [t_strip(inner, x, drop_ids, dups) for x in v]
+        elif is_struct(tp):
+            v = t_strip(tp, v, drop_ids, dups)
+        out[f.name] = v
+    return out
+
+
+def t_shorten(cls, tree):
+    """in place: 128-bit values in their short form where they have one (Apple-defined types), else cut to 16 bits"""
+    n = 0
+    for f, tp in fields_of(cls):
+        if f.name not in tree:
+            continue
+        v = tree[f.name]
+        if is_seq(tp):
+            if tp.__args__[0] is not T.u16:
+                n += sum(t_shorten(tp.__args__[0], x) for x in v)
+        elif is_struct(tp):
+            n += t_shorten(tp, v)
+        elif SIZES.get(tp) == 16:
+            tree[f.name] = (v >> 96) if (v & LOW96 == HAP_BASE and v >> 96) else (v if v < (1 << 64) else v & 0xFFFF)
+            n += 1
+    return n
+
+
+def t_json(cls, tree):
+    out = {}
+    for f, tp in fields_of(cls):
+        if f.name not in tree:
+            continue
+        v = tree[f.name]
+        if is_seq(tp):
+            inner = tp.__args__[0]
+            out[f.name] = [int(x) for x in v] if inner is T.u16 else [t_json(inner, x) for x in v]
+        elif is_struct(tp):
+            out[f.name] = t_json(tp, v)
+        elif isinstance(v, int):
+            out[f.name] = str(int(v))
+        elif isinstance(v, str):
+            out[f.name] = hx(v.encode("utf-8"))
+        else:
+            out[f.name] = hx(v)
+    return out
+
+
+def t_unjson(cls, tj):
+    out = {}
+    for f, tp in fields_of(cls):
+        if f.name not in tj:
+            continue
+        v = tj[f.name]
+        if is_seq(tp):
+            inner = tp.__args__[0]
+            out[f.name] = [int(x) for x in v] if inner is T.u16 else [t_unjson(inner, x) for x in v]
+        elif is_struct(tp):
+            out[f.name] = t_unjson(tp, v)
+        elif tp in SIZES or tp is T.bu16 or is_enum(tp):
+            out[f.name] = int(v)
+        elif tp is str:
+            out[f.name] = unhex(v).decode("utf-8")
+        else:
+            out[f.name] = unhex(v)
+    return out
+
+
+def brief(v):
+    r = repr(v)
+    return r if len(r) <= 70 else r[:67] + "..."
+
+
+def t_diff(obj, cls, tree, path=""):
+    """differences between what decode() returned and the items that were on the wire: (kind, path, text)"""
+    if not isinstance(obj, cls):
+        return [("value", path or ".", f"{path or 'message'} is a {type(obj).__name__} instead of a {cls.__name__}")]
+    out = []
+    schema = {f.name for f, _ in fields_of(cls)}
+    for f in dataclasses.fields(cls):
+        if f.init and f.name not in schema and getattr(obj, f.name, None) is not None:
+            out.append(("absent", f"{path}.{f.name}", f"{path}.{f.name} = {brief(getattr(obj, f.name))} although no such item can be on the wire"))
+    for f, tp in fields_of(cls):
+        p = f"{path}.{f.name}"
+        got = getattr(obj, f.name, None)
+        if f.name not in tree:
+            if got is not None:
+                out.append(("absent", p, f"{p} = {brief(got)} although the message holds no item of type {int(f.metadata['tlv_type'])} (absent must decode as None)"))
+            continue
+        want = tree[f.name]
+        if got is None:
+            out.append(("lost", p, f"{p} = None although the message holds item {int(f.metadata['tlv_type'])} = {t_show_val(want, tp)[:70]}"))
+            continue
+        if is_seq(tp):
+            inner = tp.__args__[0]
+            if inner is T.u16:
+                ok = isinstance(got, (list, tuple)) and all(isinstance(x, int) for x in got) and [int(x) for x in got] == list(want)
+                if not ok:
+                    out.append(("ids", p, f"{p} = {brief(got)} instead of the ids {want}"))
+            elif not isinstance(got, (list, tuple)) or len(got) != len(want):
+                out.append(("value", p, f"{p} holds {len(got) if isinstance(got, (list, tuple)) else type(got).__name__} items instead of {len(want)}"))
+            else:
+                for i, (g, w) in enumerate(zip(got, want)):
+                    out += t_diff(g, inner, w, f"{p}[{i}]")
+        elif is_struct(tp):
+            out += t_diff(got, tp, want, p)
+        elif tp in SIZES or tp is T.bu16 or is_enum(tp):
+            if not (isinstance(got, int) and not isinstance(got, bool) and int(got) == want):
+                out.append(("value", p, f"{p} = {brief(got)} ({hex(got) if isinstance(got, int) else type(got).__name__}) instead of the encoded {want} ({hex(want)})"))
+        elif tp is str:
+            if not (isinstance(got, str) and got == want):
+                out.append(("value", p, f"{p} = {brief(got)} instead of the encoded text {brief(want)}"))
+        else:
+            if not (isinstance(got, (bytes, bytearray)) and bytes(got) == want):
+                out.append(("value", p, f"{p} = {brief(got)} instead of the encoded bytes {brief(want)}"))
+    return out
+
+
+WIRE_KINDS = {"absent": "absent-item-decoded-as-value", "lost": "present-item-decoded-as-absent", "value": "item-value-differs", "ids": "item-value-differs"}
+
+
+def wire_decode_diff(cls, tree, data):
+    """(exception name or None, differences)"""
+    try:
+        obj = cls.decode(data)
+    except Exception as e:  # noqa: BLE001
+        return type(e).__name__, []
+    try:
+        return None, t_diff(obj, cls, tree)
+    except Exception as e:  # noqa: BLE001
+        return None, [("value", ".", f"the decoded message cannot be inspected: {type(e).__name__}({str(e)[:60]})")]
+
+
+def wire_problems(cls, name, tree, data, variant):
+    """oracles of the wire stream for one hand-built message; [(signature, text)]"""
+    short = name.split(".")[-1]
+    out = []
+    dups = bool(dup_types_of(cls))
+    ids = t_has_ids(cls, tree)
+    how = {"canonical": "items in declaration order", "permuted": "items in an order of the writer's choosing", "narrow": "128-bit types in their short form"}.get(variant, variant)
+
+    def known(check):
+        """signature suffix when the failure is explained by a recorded finding alone, else None"""
+        if ids:
+            t2 = t_strip(cls, tree, True, dups)
+            if check(t2):
+                return "seqU16"
+        if dups:
+            t2 = t_strip(cls, tree, False, True)
+            if t2 != tree and check(t2):
+                return "duplicate-type-" + "-".join(map(str, dup_types_of(cls)))
+        return None
+    exc, diffs = wire_decode_diff(cls, tree, data)
+    if exc or diffs:
+        def dec_ok(t2):
+            return wire_decode_diff(cls, t2, t_bytes(cls, t2, None, variant == "narrow")) == (None, [])
+        k = known(dec_ok)
+        if k == "seqU16":
+            out.append((f"peer/wire/{short}/seqU16", f"{name}: id list decoded with the TLV splitter ({exc or diffs[0][2]})"))
+        elif k:
+            out.append((f"wire/{short}/{k}", f"{name}: {exc or diffs[0][2]}"))
+        elif exc:
+            out.append((f"wire/{short}/raised-{exc}", f"{name}: decoding a conformant peer's message ({how}; items present: {', '.join(tree) or 'none'}) raised {exc}; bytes {hx(data)[:120]}"))
+        else:
+            seen = set()
+            for kind, _, text in diffs:
+                if kind in seen:
+                    continue
+                seen.add(kind)
+                out.append((f"wire/{short}/{WIRE_KINDS[kind]}", f"{name}: decoding {hx(data)[:80]}{'...' if len(data) > 40 else ''} ({how}): {text}"))
+    if variant != "canonical" or ids:
+        return out
+    # the other direction: the library's own object for the same tree (every other field explicitly None)
+    try:
+        obj = t_obj(cls, tree)
+    except Exception as e:  # noqa: BLE001
+        return out + [(f"wire/{short}/construct-raised-{type(e).__name__}", f"{name}: building the message with fields {', '.join(tree) or 'none'} set and all others None raised {type(e).__name__}({str(e)[:80]})")]
+    try:
+        enc = obj.encode()
+    except Exception as e:  # noqa: BLE001
+        return out + [(f"wire/{short}/encode-raised-{type(e).__name__}", f"{name}: encode() of a message with fields {', '.join(tree) or 'none'} set raised {type(e).__name__}({str(e)[:80]})")]
+    if bytes(enc) != data:
+        out.append((f"wire/{short}/not-canonical", f"{name}: encode() of the message with fields {', '.join(tree) or 'none'} set gives {hx(enc)[:100]} instead of the canonical {hx(data)[:100]}"))
+    try:
+        back = cls.decode(bytes(enc))
+        equal = (back == obj)
+    except Exception as e:  # noqa: BLE001
+        back, equal = None, None
+        if not exc:
+            out.append((f"wire/{short}/raised-{type(e).__name__}", f"{name}: decode(encode(m)) raised {type(e).__name__} for m with fields {', '.join(tree) or 'none'} set"))
+    if equal is False and not any("/item-value-differs" in s_ or "/absent-item" in s_ or "/present-item" in s_ or "/duplicate-type" in s_ for s_, _ in out):
+        def rt_ok(t2):
+            try:
+                o2 = t_obj(cls, t2)
+                return cls.decode(o2.encode()) == o2
+            except Exception:  # noqa: BLE001
+                return False
+        k = known(rt_ok)
+        out.append((f"wire/{short}/" + (k or "roundtrip-unequal"), f"{name}: decode(encode(m)) != m for m with fields {', '.join(tree) or 'none'} set: {brief(back)}"))
+    return out
+
+
+def dup_types_of(cls):
+    ts = [int(f.metadata["tlv_type"]) for f, _ in fields_of(cls)]
+    return sorted({t for t in ts if ts.count(t) > 1})
+
+
+def wire_subsets(rng, names, extra):
+    import itertools
+    n = len(names)
+    if n <= 5:
+        return [set(c) for k in range(n + 1) for c in itertools.combinations(names, k)]
+    out = [set(), set(names)] + [{x} for x in names] + [set(names) - {x} for x in names]
+    for _ in range(extra):
+        p = rng.choice([0.15, 0.5, 0.85])
+        out.append({x for x in names if rng.random() < p})
+    return out
+
+
+def wire_case(name, cls, tree, data, variant):
+    return {"stream": "wire", "cls": name, "variant": variant, "data": hx(data), "tree": t_json(cls, tree), "want": ("ok " + t_show(cls, tree))[:3000]}
+
+
+def wire_stream(ctx, classes, dcases, douts, dlines):
+    rng = ctx.rng
+    reported = Counter()
+
+    def one(name, cls, tree, variant, kind, corr=True):
+        order = None
+        if variant == "permuted":
+            import random
+            order = random.Random(rng.getrandbits(32))
+        if variant == "narrow" and not t_shorten(cls, tree):
+            variant = "canonical"
+        data = t_bytes(cls, tree, order, variant == "narrow")
+        ctx.evaluations += 1
+        ctx.dist[f"wire:{kind}"] += 1
+        ctx.dist[f"wire:order:{variant}"] += 1
+        ctx.dist["wire:items-present:" + ("none" if not tree else "all" if len(tree) == len(fields_of(cls)) else "some")] += 1
+        ctx.nontrivial.add(("wire", name, variant, tuple(f.name in tree for f, _ in fields_of(cls))))
+        for sig, text in wire_problems(cls, name, tree, data, variant):
+            if reported[sig] >= 3:
+                continue
+            reported[sig] += 1
+            ctx.violation(sig, text, wire_case(name, cls, tree, data, variant))
+        if corr and len(data) < 30000:
+            dcases.append({"stream": "dec", "cls": name, "data": hx(data)})
+            douts.append(impl_decode(cls, data))
+            dlines.append(f"t8.dec {name} {hx(data)}")
+        return data
+    apple, other = uuid_pool()
+    for name, cls, _ in classes:
+        fl = fields_of(cls)
+        names = [f.name for f, _ in fl]
+        # one item alone, over the structured values of its type; for 128-bit fields every type the library's tables name
+        for f, tp in fl:
+            if is_seq(tp) or is_struct(tp):
+                continue
+            types = [int(g.metadata["tlv_type"]) for g, _ in fl]
+            if SIZES.get(tp) == 16:
+                for u in apple + other:
+                    one(name, cls, {f.name: u}, "canonical", "single-item:table-uuid", corr=rng.random() < 0.25)
+                    if u & LOW96 == HAP_BASE and rng.random() < 0.3:
+                        one(name, cls, {f.name: u}, "narrow", "single-item:table-uuid", corr=False)
+            for _ in range(ctx.budget(6, 120)):
+                v = t_value(rng, tp, 0, False, types)
+                if v is not None:
+                    one(name, cls, {f.name: v}, "canonical", "single-item:value-sweep", corr=rng.random() < 0.5)
+        # every subset of items present (all of them for small messages; none / one / all but one / all and random ones otherwise)
+        for sub in wire_subsets(rng, names, ctx.budget(12, 300)):
+            tree = t_tree(rng, cls, 0, False, subset=sub)
+            one(name, cls, tree, "canonical", "subset")
+            if len(tree) >= 2 and rng.random() < 0.5:
+                one(name, cls, tree, "permuted", "subset")
+        # random messages in the three writing styles
+        for _ in range(ctx.budget(24, 600)):
+            tree = t_tree(rng, cls, 0, with_ids=rng.random() < 0.25)
+            if not tree:
+                continue
+            one(name, cls, tree, rng.choice(["canonical", "permuted", "permuted", "narrow"]), "random")
+        # observation for the correspondence only: an item of length zero (a peer's empty value) next to the others
+        for f, tp in fl:
+            tree = t_tree(rng, cls, 0, False, subset={x for x in names if x != f.name and rng.random() < 0.5})
+            data = t_bytes(cls, tree) + bytes([int(f.metadata["tlv_type"]), 0])
+            ctx.dist["wire:zero-length-item(correspondence only)"] += 1
+            dcases.append({"stream": "dec", "cls": name, "data": hx(data)})
+            douts.append(impl_decode(cls, data))
+            dlines.append(f"t8.dec {name} {hx(data)}")
+
+
+# ---------- stream 'db': what the library receives from accessories - CoAP accessory databases (1..3 accessories x services x
+# characteristics) and BLE characteristic signatures, written by the reference writer from plain trees and observed through
+# decode() and the public views the pairings consume (to_dict(), Accessories.from_list(to_dict()))
+DB_CLS = "aiohomekit.controller.coap.structs.Pdu09Database"
+SIG_CLS = "aiohomekit.controller.ble.structs.Characteristic"
+# HAP-BLE "HAP Characteristic Properties Descriptor" bits -> HAP permission names
+PERM_BITS = {0x0010: "pr", 0x0020: "pw", 0x0080: "ev", 0x0004: "aa", 0x0008: "tw", 0x0040: "hd"}
+# GATT presentation format codes HAP uses -> byte width of a value (None: not numeric)
+PF_FORMATS = {0x01: None, 0x04: 1, 0x06: 2, 0x08: 4, 0x0A: 8, 0x10: 4, 0x14: 4, 0x19: None, 0x1B: None}
+PF_UNITS = [0x2700, 0x272F, 0x2763, 0x27AD, 0x2731, 0x2703]
+
+
+def type_norm(v):
+    """a type as the 128-bit number it names: short ids are shorthand for the Apple-defined UUID with that id"""
+    return v if v >> 32 else (v << 96) | HAP_BASE
+
+
+def type_text(v):
+    h = f"{type_norm(v):032X}"
+    return f"{h[:8]}-{h[8:12]}-{h[12:16]}-{h[16:20]}-{h[20:]}"
+
+
+def db_type(rng):
+    apple, other = uuid_pool()
+    r = rng.random()
+    if r < 0.45:
+        return rng.choice(apple)  # full form
+    if r < 0.8:
+        return rng.choice(apple) >> 96  # short form
+    return rng.choice(other)
+
+
+def db_char_tree(rng, iid, names):
+    fmt = rng.choice(sorted(PF_FORMATS))
+    tree = {"type": db_type(rng), "properties": rng.choice([0x0010, 0x0030, 0x00B0, 0x0090, 0x0020, 0x03FF, rng.randrange(1, 1024)]),
+            "presentation_format": bytes([fmt, 0]) + rng.choice(PF_UNITS).to_bytes(2, "little") + b"\x01\x00\x00"}
+    if iid is not None:
+        tree["instance_id"] = iid
+    w = PF_FORMATS[fmt]
+    if w and fmt != 0x14 and rng.random() < 0.5:
+        lo, hi = sorted([rng.randrange(256 ** w // 2), rng.randrange(256 ** w // 2)])
+        tree["valid_range"] = lo.to_bytes(w, "little") + hi.to_bytes(w, "little")
+        if rng.random() < 0.5:
+            tree["step_value"] = rng.randrange(1, 100).to_bytes(w, "little")
+    for opt in ("user_descriptor", "user_description"):
+        if opt in names and rng.random() < 0.3:
+            tree[opt] = "".join(rng.choice("abc XYZ09é") for _ in range(rng.choice([1, 8, 40, 300]))).encode()
+    if "service_instance_id" in names:
+        tree["service_instance_id"] = rng.randrange(1, 65536).to_bytes(2, "little")
+    if "service_type" in names:
+        tree["service_type"] = rng.choice(uuid_pool()[0]).to_bytes(16, "little")
+    return {k: v for k, v in tree.items() if k in names}
+
+
+def db_tree(rng, char_names):
+    iids = iter(rng.sample(range(1, 65536), 64))
+    accs = []
+    for aid in rng.sample(range(1, 65536), rng.randint(1, 3)):
+        svcs = []
+        for _ in range(rng.randint(1, 3)):
+            svc = {"type": db_type(rng), "instance_id": next(iids),
+                   "_characteristics": [{"characteristic": db_char_tree(rng, next(iids), char_names)} for _ in range(rng.randint(1, 3))]}
+            if rng.random() < 0.5:
+                svc["properties"] = rng.choice([1, 2, 3, 0])
+            svcs.append({"service": svc})
+        accs.append({"accessory": {"instance_id": aid, "_services": svcs}})
+    return {"_accessories": accs}
+
+
+def perms_of(bits):
+    return sorted(n for b, n in PERM_BITS.items() if bits & b)
+
+
+def view_type(x):
+    return int(str(x).replace("-", ""), 16)
+
+
+def db_view_problems(cls, name, tree, data):
+    """the decoded database through the views the CoAP pairing consumes; [(signature, text)]"""
+    try:
+        db = cls.decode(data)
+    except Exception:  # noqa: BLE001
+        return []  # reported by the wire oracles
+    want = [(a["accessory"]["instance_id"], [(s["service"]["instance_id"], s["service"]["type"], [(c["characteristic"]["instance_id"], c["characteristic"]["type"], c["characteristic"]["properties"])
+                                                                                                for c in s["service"]["_characteristics"]]) for s in a["accessory"]["_services"]]) for a in tree["_accessories"]]
+    try:
+        view = db.to_dict()
+    except Exception as e:  # noqa: BLE001
+        return [(f"db/to_dict-raised-{type(e).__name__}", f"{name}: to_dict() of a conformant accessory's database raised {type(e).__name__}({str(e)[:80]}); bytes {hx(data)[:120]}")]
+    out = []
+    try:
+        got = [(a["aid"], [(s["iid"], type_norm(view_type(s["type"])), [(c["iid"], type_norm(view_type(c["type"])), sorted(c["perms"])) for c in s["characteristics"]]) for s in a["services"]]) for a in view]
+        exp = [(aid, [(siid, type_norm(st), [(ciid, type_norm(ct), perms_of(p)) for ciid, ct, p in chars]) for siid, st, chars in svcs]) for aid, svcs in want]
+        if got != exp:
+            out.append(("db/to_dict-differs", f"{name}: to_dict() of the decoded database gives (aid, (iid, type, (iid, type, perms))) = {str(got)[:200]} instead of the encoded {str(exp)[:200]}"))
+    except Exception as e:  # noqa: BLE001
+        out.append(("db/to_dict-differs", f"{name}: to_dict() of the decoded database lacks the encoded ids / types ({type(e).__name__}: {str(e)[:60]}): {str(view)[:200]}"))
+    if out:
+        return out
+    try:
+        from aiohomekit.model import Accessories
+        accs = Accessories.from_list(view)
+        got = [(a.aid, [(s.iid, str(s.type).upper(), [(c.iid, str(c.type).upper(), sorted(c.perms)) for c in s.characteristics]) for s in a.services]) for a in accs]
+        exp = [(aid, [(siid, type_text(st), [(ciid, type_text(ct), perms_of(p)) for ciid, ct, p in chars]) for siid, st, chars in svcs]) for aid, svcs in want]
+        if got != exp:
+            out.append(("db/model-differs", f"{name}: the accessory model built from the decoded database holds {str(got)[:200]} instead of the encoded {str(exp)[:200]}"))
+    except Exception as e:  # noqa: BLE001
+        out.append((f"db/model-raised-{type(e).__name__}", f"{name}: Accessories.from_list(to_dict()) of a conformant accessory's database raised {type(e).__name__}({str(e)[:80]}); bytes {hx(data)[:120]}"))
+    return out
+
+
+def sig_view_problems(cls, name, tree, data):
+    try:
+        sig = cls.decode(data)
+    except Exception:  # noqa: BLE001
+        return []
+    try:
+        view = sig.to_dict()
+    except Exception as e:  # noqa: BLE001
+        return [(f"db/signature-to_dict-raised-{type(e).__name__}", f"{name}: to_dict() of a conformant characteristic signature raised {type(e).__name__}({str(e)[:80]}); bytes {hx(data)[:120]}")]
+    try:
+        got = (type_norm(view_type(view["type"])), sorted(view["perms"]))
+    except Exception as e:  # noqa: BLE001
+        got = f"{type(e).__name__}: {str(view)[:120]}"
+    exp = (type_norm(tree["type"]), perms_of(tree["properties"]))
+    if got != exp:
+        return [("db/signature-to_dict-differs", f"{name}: to_dict() of the decoded signature {hx(data)[:80]} gives (type, perms) = {str(got)[:160]} instead of the encoded {exp}")]
+    return []
+
+
+def db_problems(cls, name, tree, data, variant):
+    pr = wire_problems(cls, name, tree, data, variant)
+    if not pr:
+        pr = (db_view_problems if name == DB_CLS else sig_view_problems)(cls, name, tree, data)
+    return pr
+
+
+def db_stream(ctx, classes, dcases, douts, dlines):
+    import random
+    rng = ctx.rng
+    by = {name: cls for name, cls, _ in classes}
+    reported = Counter()
+    plans = []
+    if DB_CLS in by:
+        try:
+            char_cls = cls_of("aiohomekit.controller.coap.structs.Pdu09Characteristic")
+            names = {f.name for f, _ in fields_of(char_cls)}
+            plans.append((DB_CLS, ctx.budget(60, 1500), lambda: db_tree(rng, names), "database"))
+        except Exception:  # noqa: BLE001
+            pass
+    if SIG_CLS in by:
+        names = {f.name for f, _ in fields_of(by[SIG_CLS])}
+        plans.append((SIG_CLS, ctx.budget(150, 3000), lambda: db_char_tree(rng, None, names), "signature"))
+    if len(plans) < 2:
+        ctx.notes.append("stream db: the CoAP database / BLE signature classes were not both found under their names; the part that was not found is skipped")
+    for name, n, gen, kind in plans:
+        cls = by[name]
+        for _ in range(n):
+            try:
+                tree = gen()
+                # BLE signatures carry the full 128-bit type; Thread accessories write types in either form
+                variant = rng.choice(["canonical", "permuted"] if kind == "signature" else ["canonical", "permuted", "narrow", "narrow"])
+                if variant == "narrow":
+                    t_shorten(cls, tree)
+                data = t_bytes(cls, tree, random.Random(rng.getrandbits(32)) if variant == "permuted" else None, variant == "narrow")
+            except (KeyError, TypeError, AttributeError) as e:
+                ctx.notes.append(f"stream db: the {kind} classes no longer have the fields the reference writer fills ({type(e).__name__}: {e}); skipped")
+                break
+            ctx.evaluations += 1
+            ctx.dist[f"db:{kind}"] += 1
+            ctx.dist[f"db:order:{variant}"] += 1
+            ctx.nontrivial.add(("db", kind, variant, len(data) > 255, data.count(b"\x00\x00") > 3))
+            for sig, text in db_problems(cls, name, tree, data, variant):
+                if reported[sig] >= 3:
+                    continue
+                reported[sig] += 1
+                c = wire_case(name, cls, tree, data, variant)
+                c["stream"] = "db"
+                ctx.violation(sig, text, c)
+            dcases.append({"stream": "dec", "cls": name, "data": hx(data)})
+            douts.append(impl_decode(cls, data))
+            dlines.append(f"t8.dec {name} {hx(data)}")
+
+
 def run(ctx: Ctx, driver: Driver):
     rng = ctx.rng
     schemas = load_schemas()
@@ -1079,9 +1883,18 @@ def run(ctx: Ctx, driver: Driver):
                 ctx.dist["mut:" + " ".join(out2.split()[:2] if out2.startswith("err") else out2.split()[:1])] += 1
                 ctx.evaluations += 1
     ctx.sample({k: (v if len(str(v)) < 400 else str(v)[:400] + "...") for k, v in dcases[-1].items()})
+    # ---- stream wire: hand-built byte strings with every subset of items present, in three writing styles
+    wire_stream(ctx, classes, dcases, douts, dlines)
+    # ---- stream db: reference-encoded accessory databases / characteristic signatures through decode() and the consumers' views
+    db_stream(ctx, classes, dcases, douts, dlines)
     compare_with_model(ctx, "dec", dcases, douts, dlines, driver, canon=lambda s: ("err" if s.startswith("err") else s))
     # ---- streams model / ip: the same messages as values of struct-valued characteristics, through the accessory model
-    model_streams(ctx)
+    try:
+        model_streams(ctx)
+    finally:
+        for k, n in sorted(GEN_KINDS.items()):
+            ctx.dist["values:" + k] += n
+        GEN_KINDS.clear()
 
 
 def replay(ctx, driver, c):
@@ -1103,7 +1916,13 @@ def replay(ctx, driver, c):
         return "; ".join(t for _, t in pr[:3])[:600] or None
     cls = cls_of(c["cls"])
     nm = len(ctx.mismatches)
-    if c["stream"] in ("peer", "dec"):
+    if c["stream"] in ("wire", "db"):
+        data = unhex(c["data"])
+        pr = (wire_problems if c["stream"] == "wire" else db_problems)(cls, c["cls"], t_unjson(cls, c["tree"]), data, c.get("variant", "canonical"))
+        compare_with_model(ctx, "dec", [c], [impl_decode(cls, data)], [f"t8.dec {c['cls']} {hx(data)}"], driver, canon=lambda s: ("err" if s.startswith("err") else s))
+        if pr:
+            return "; ".join(t for _, t in pr[:3])[:600]
+    elif c["stream"] in ("peer", "dec"):
         data = bytes.fromhex(c["data"]) if c["data"] != "-" else b""
         out = impl_decode(cls, data)
         compare_with_model(ctx, "dec", [c], [out], [f"t8.dec {c['cls']} {hx(data)}"], driver, canon=lambda s: ("err" if s.startswith("err") else s))
